@@ -12,23 +12,6 @@ From TV Require Import Proofs.LexEquivBase Proofs.LexEquivTrivia Proofs.LexEquiv
 Require Import Lia ZifyBool ZifyN ZifyNat.
 
 (* ---- first bytes of items ------------------------------------------------------------------------- *)
-Definition khead (b : byte) : Prop := b = x22 \/ b = x27 \/ unquoted_key_char b = true.
-
-Lemma simple_key_khead t k : simple_key_tok t k -> exists b t', t = b :: t' /\ khead b.
-Proof.
-  unfold khead. intros [(_ & body & -> & _) | [(_ & body & -> & _) | [[Hne Ha] _]]].
-  - exists x22, (body ++ [x22]). auto.
-  - exists x27, (body ++ [x27]). auto.
-  - destruct t as [|b t']; [congruence|]. exists b, t'. split; [reflexivity|].
-    unfold all in Ha. cbn [forallb] in Ha. apply andb_true_iff in Ha as [Hb _]. auto.
-Qed.
-
-Lemma key_khead t p : key_tok t p -> exists b t', t = b :: t' /\ khead b.
-Proof.
-  intros [t0 k H | t0 k w1 w2 u ks H _ _ _]; destruct (simple_key_khead _ _ H) as (b & t' & -> & Hb);
-    eexists b, _; (split; [reflexivity|exact Hb]).
-Qed.
-
 Lemma khead_facts b : khead b ->
   wschar b = false /\ byte_eqb b COMMENT_START_SYMBOL = false /\ byte_eqb b STD_TABLE_OPEN = false
   /\ byte_eqb b LF = false /\ byte_eqb b CR = false.
